@@ -131,10 +131,13 @@ type c03Obs struct {
 	st       []string
 }
 
-func c03Eval(cfg drv.Cfg, src string) (o c03Obs, panicSite string) {
+func c03Eval(cfg drv.Cfg, src string, warm bool) (o c03Obs, panicSite string) {
 	vm := drv.NewVM(drv.AllOn())
 	if err := vm.Run(c03Prelude); err != nil {
 		panic(err)
+	}
+	if warm {
+		drv.WarmUp(vm) // both sides of the differential comparison start from the same well-used VM
 	}
 	cfg.Apply(vm)
 	vm.Config.OpCountLimit = 4000 // 'while 1{}' is a legitimate endless program without a budget; with one it is an error on both sides
@@ -227,7 +230,8 @@ func c03Run(raw json.RawMessage) harn.Result {
 		panic(err)
 	}
 	res := harn.Result{Stats: map[string]int64{}}
-	full, site := c03Eval(c.Cfg, c.Src)
+	warm := len(c.Src)%32 == 7 // one case in thirty-two on a well-used VM
+	full, site := c03Eval(c.Cfg, c.Src, warm)
 	viol := func(sig, what string) {
 		if len(res.Violations) < 1 {
 			res.Violations = append(res.Violations, harn.Violation{Signature: sig, What: fmt.Sprintf("cfg[%s] input %q (matched %q rest %q): %s", c.Cfg, c.Src, full.matched, full.rest, what)})
@@ -253,7 +257,7 @@ func c03Run(raw json.RawMessage) harn.Result {
 	if strings.TrimRightFunc(full.matched, unicode.IsSpace) != full.matched {
 		viol("C03:matched-trailing-space", "Matched ends in white space")
 	}
-	alone, site2 := c03Eval(c.Cfg, full.matched)
+	alone, site2 := c03Eval(c.Cfg, full.matched, warm)
 	if site2 != "" {
 		viol(site2, "panic when Matched is evaluated alone")
 		return res
